@@ -52,7 +52,7 @@ theorem C02_ghost_meaning (s : St) (pid : Int) (i : Nat)
 
 /-- **C02_eq_iff_same_incarnation.** After any history, for any two objects (built at any two points of
     it): `a == b` is True exactly when they have the same PID and were built for the same process start. -/
-theorem C02_eq_iff_same_incarnation (b0 : Nat) (hb0 : b0 ≠ 0) (h : List Ev) (hh : HistOK h)
+theorem C02_eq_iff_same_incarnation (b0 : Nat) (hb0 : BtOK cfg.createNoneTest b0) (h : List Ev) (hh : HistOK cfg.createNoneTest h)
     (i j : Nat) (a b : PObj)
     (ha : (run cfg (St.init b0) h).ps.objs[i]? = some a) (hb : (run cfg (St.init b0) h).ps.objs[j]? = some b) :
     (step cfg (run cfg (St.init b0) h) (.c (.eq i j))).2 = .bool (decide (SameIncarnation a b)) := by
@@ -65,7 +65,7 @@ theorem C02_eq_iff_same_incarnation (b0 : Nat) (hb0 : b0 ≠ 0) (h : List Ev) (h
   simp [SameIncarnation]
 
 /-- **C02_hash_congr.** Equal objects hash alike. -/
-theorem C02_hash_congr (b0 : Nat) (hb0 : b0 ≠ 0) (h : List Ev) (hh : HistOK h)
+theorem C02_hash_congr (b0 : Nat) (hb0 : BtOK cfg.createNoneTest b0) (h : List Ev) (hh : HistOK cfg.createNoneTest h)
     (i j : Nat) (a b : PObj)
     (ha : (run cfg (St.init b0) h).ps.objs[i]? = some a) (hb : (run cfg (St.init b0) h).ps.objs[j]? = some b)
     (hsame : SameIncarnation a b) :
@@ -78,7 +78,7 @@ theorem C02_hash_congr (b0 : Nat) (hb0 : b0 ≠ 0) (h : List Ev) (hh : HistOK h)
 /-- **C02_isRunning_iff_listed.** After any history, `is_running()` is True exactly when the incarnation the
     object was built for is still in the process table (a zombie is still listed), False otherwise —
     including when the PID is alive again under another process. -/
-theorem C02_isRunning_iff_listed (b0 : Nat) (hb0 : b0 ≠ 0) (h : List Ev) (hh : HistOK h) (i : Nat) (o : PObj)
+theorem C02_isRunning_iff_listed (b0 : Nat) (hb0 : BtOK cfg.createNoneTest b0) (h : List Ev) (hh : HistOK cfg.createNoneTest h) (i : Nat) (o : PObj)
     (ho : (run cfg (St.init b0) h).ps.objs[i]? = some o) :
     (step cfg (run cfg (St.init b0) h) (.c (.isRunning i))).2 = .bool (listedB (run cfg (St.init b0) h).kern o) := by
   have hinv := run_inv cfg_good h _ hh (init_inv cfg.clk hb0)
@@ -105,9 +105,9 @@ theorem C02_zombie_still_listed (k : Kernel) (o : PObj) (pid : Nat) :
 
 /-- **C02_isRunning_sticky.** Once the object's incarnation has left the table, `is_running()` is False after
     every continuation of the history — PID reuse, clock steps, `boot_time()` and any other call included. -/
-theorem C02_isRunning_sticky (b0 : Nat) (hb0 : b0 ≠ 0) (h : List Ev) (hh : HistOK h) (i : Nat) (o : PObj)
+theorem C02_isRunning_sticky (b0 : Nat) (hb0 : BtOK cfg.createNoneTest b0) (h : List Ev) (hh : HistOK cfg.createNoneTest h) (i : Nat) (o : PObj)
     (ho : (run cfg (St.init b0) h).ps.objs[i]? = some o)
-    (hgone : ¬ Listed (run cfg (St.init b0) h).kern o) (h2 : List Ev) (hh2 : HistOK h2) :
+    (hgone : ¬ Listed (run cfg (St.init b0) h).kern o) (h2 : List Ev) (hh2 : HistOK cfg.createNoneTest h2) :
     (step cfg (run cfg (run cfg (St.init b0) h) h2) (.c (.isRunning i))).2 = .bool false := by
   have hinv := run_inv cfg_good h _ hh (init_inv cfg.clk hb0)
   generalize run cfg (St.init b0) h = s at *
@@ -129,9 +129,9 @@ theorem C02_isRunning_sticky (b0 : Nat) (hb0 : b0 ≠ 0) (h : List Ev) (hh : His
 
 /-- the answer given by `is_running()` itself is sticky: after it returned False once, it returns False
     ever after -/
-theorem C02_isRunning_false_forever (b0 : Nat) (hb0 : b0 ≠ 0) (h : List Ev) (hh : HistOK h) (i : Nat)
+theorem C02_isRunning_false_forever (b0 : Nat) (hb0 : BtOK cfg.createNoneTest b0) (h : List Ev) (hh : HistOK cfg.createNoneTest h) (i : Nat)
     (hfalse : (step cfg (run cfg (St.init b0) h) (.c (.isRunning i))).2 = .bool false)
-    (h2 : List Ev) (hh2 : HistOK h2) :
+    (h2 : List Ev) (hh2 : HistOK cfg.createNoneTest h2) :
     (step cfg (run cfg (St.init b0) (h ++ .c (.isRunning i) :: h2)) (.c (.isRunning i))).2 = .bool false := by
   cases ho : (run cfg (St.init b0) h).ps.objs[i]? with
   | none => rw [step_bad_index cfg _ (call := .isRunning i) rfl ho] at hfalse; cases hfalse
@@ -153,9 +153,9 @@ theorem C02_isRunning_false_forever (b0 : Nat) (hb0 : b0 ≠ 0) (h : List Ev) (h
 /-- **C02_answers_stable.** `==` and `hash()` of existing objects are not affected by anything that happens
     later (clock steps, `boot_time()`, exits, PID reuse, new objects, any call): the identity an object
     was given at construction is never recomputed. -/
-theorem C02_answers_stable (b0 : Nat) (hb0 : b0 ≠ 0) (h : List Ev) (hh : HistOK h) (i j : Nat) (a b : PObj)
+theorem C02_answers_stable (b0 : Nat) (hb0 : BtOK cfg.createNoneTest b0) (h : List Ev) (hh : HistOK cfg.createNoneTest h) (i j : Nat) (a b : PObj)
     (ha : (run cfg (St.init b0) h).ps.objs[i]? = some a) (hb : (run cfg (St.init b0) h).ps.objs[j]? = some b)
-    (h2 : List Ev) (hh2 : HistOK h2) :
+    (h2 : List Ev) (hh2 : HistOK cfg.createNoneTest h2) :
     (step cfg (run cfg (run cfg (St.init b0) h) h2) (.c (.eq i j))).2
         = (step cfg (run cfg (St.init b0) h) (.c (.eq i j))).2
     ∧ (step cfg (run cfg (run cfg (St.init b0) h) h2) (.c (.hash i))).2
@@ -198,7 +198,7 @@ theorem C02_iter_ghost_meaning (s : St) (l : List (Nat × Nat))
 /-- **C02_iter_handles_valid.** After any history, every handle `(pid, i)` yielded by `process_iter()` names an
     object of the resulting state, and that object's PID is `pid` — so all theorems of this file apply to
     it under index `i`. -/
-theorem C02_iter_handles_valid (b0 : Nat) (hb0 : b0 ≠ 0) (h : List Ev) (hh : HistOK h) (l : List (Nat × Nat))
+theorem C02_iter_handles_valid (b0 : Nat) (hb0 : BtOK cfg.createNoneTest b0) (h : List Ev) (hh : HistOK cfg.createNoneTest h) (l : List (Nat × Nat))
     (hl : (step cfg (run cfg (St.init b0) h) (.c .processIter)).2 = .procs l) :
     ∀ e ∈ l, ∃ o, (step cfg (run cfg (St.init b0) h) (.c .processIter)).1.ps.objs[e.2]? = some o ∧ o.pid = e.1 := by
   have hinv := run_inv cfg_good h _ hh (init_inv cfg.clk hb0)
@@ -222,7 +222,7 @@ transcription guarantees and characterise what it does not. -/
 
 /-- **C02_status_terminated_sound.** After any history, when `str(p)` says "terminated" (with or without
     "+ PID reused"), the object's incarnation is indeed no longer in the process table. -/
-theorem C02_status_terminated_sound (b0 : Nat) (hb0 : b0 ≠ 0) (h : List Ev) (hh : HistOK h) (i : Nat) (o : PObj)
+theorem C02_status_terminated_sound (b0 : Nat) (hb0 : BtOK cfg.createNoneTest b0) (h : List Ev) (hh : HistOK cfg.createNoneTest h) (i : Nat) (o : PObj)
     (ho : (run cfg (St.init b0) h).ps.objs[i]? = some o)
     (hw : (step cfg (run cfg (St.init b0) h) (.c (.status i))).2 = .status .terminated
         ∨ (step cfg (run cfg (St.init b0) h) (.c (.status i))).2 = .status .reusedTerminated) :
@@ -236,7 +236,7 @@ theorem C02_status_terminated_sound (b0 : Nat) (hb0 : b0 ≠ 0) (h : List Ev) (h
 
 /-- **C02_status_listed.** After any history, while the object's own incarnation is in the table `str(p)`
     shows that incarnation's state (zombie or not) — never "terminated". -/
-theorem C02_status_listed (b0 : Nat) (hb0 : b0 ≠ 0) (h : List Ev) (hh : HistOK h) (i : Nat) (o : PObj)
+theorem C02_status_listed (b0 : Nat) (hb0 : BtOK cfg.createNoneTest b0) (h : List Ev) (hh : HistOK cfg.createNoneTest h) (i : Nat) (o : PObj)
     (ho : (run cfg (St.init b0) h).ps.objs[i]? = some o)
     (hl : Listed (run cfg (St.init b0) h).kern o) :
     ∃ x, (run cfg (St.init b0) h).kern.find o.pid = some x ∧ x.start = o.ghost
@@ -252,7 +252,7 @@ theorem C02_status_listed (b0 : Nat) (hb0 : b0 ≠ 0) (h : List Ev) (hh : HistOK
     incarnation is gone".  `__str__` deliberately has no side effects (it does not run `is_running()`), so
     it cannot hold; see `C02_status_stale_counterexample`. -/
 def StatusTerminatedIffNotListed_Full (c : Cfg) : Prop :=
-  ∀ (b0 : Nat), b0 ≠ 0 → ∀ (h : List Ev), HistOK h → ∀ (i : Nat) (o : PObj),
+  ∀ (b0 : Nat), BtOK c.createNoneTest b0 → ∀ (h : List Ev), HistOK c.createNoneTest h → ∀ (i : Nat) (o : PObj),
     (run c (St.init b0) h).ps.objs[i]? = some o →
     (((step c (run c (St.init b0) h) (.c (.status i))).2 = .status .terminated
         ∨ (step c (run c (St.init b0) h) (.c (.status i))).2 = .status .reusedTerminated)
@@ -294,7 +294,8 @@ def witnessIterReuse : List Ev :=
   [.k (.spawn 8), .c (.newObj 8), .k (.reap 8), .k (.spawn 8), .c .processIter, .c (.isRunning 0),
    .c .processIter, .c .processIter]
 
-example : HistOK witnessL2 ∧ HistOK witnessMixed ∧ HistOK witnessIterReuse := by decide
+example : HistOK cfg.createNoneTest witnessL2 ∧ HistOK cfg.createNoneTest witnessMixed
+    ∧ HistOK cfg.createNoneTest witnessIterReuse := by decide
 
 /-- along `witnessIterReuse`: the first sweep yields the new handle (8, 1), the second sweep yields nothing
     (entry evicted, PID skipped), the third yields a third handle (8, 2); handle 1 — evicted from the cache
@@ -326,19 +327,19 @@ example :
 
 /-- `boot_time()` as in psutil ≤ 7.0.0 (rewrites BOOT_TIME on every call) -/
 def cfgBootRewrite : Cfg :=
-  { clk := 100, goneRaises := true, bootWriteOnce := false, createUsesCache := true,
+  { clk := 100, goneRaises := true, bootWriteOnce := false, createUsesCache := true, createNoneTest := false,
     guardSignal := true, guardNice := true, guardIonice := true, guardRlimit := true,
     guardAffinity := true, guardPpid := true, pid0Refused := true, negRejected := true,
     rlimitPid0Refused := true, sigStop := 19, sigCont := 18, sigTerm := 15, sigKill := 9,
     ioNoValue := [0, 3], affinityAll := 1024 }
 
 def EqIffSame_Full (c : Cfg) : Prop :=
-  ∀ (b0 : Nat), b0 ≠ 0 → ∀ (h : List Ev), HistOK h → ∀ (i j : Nat) (a b : PObj),
+  ∀ (b0 : Nat), BtOK c.createNoneTest b0 → ∀ (h : List Ev), HistOK c.createNoneTest h → ∀ (i j : Nat) (a b : PObj),
     (run c (St.init b0) h).ps.objs[i]? = some a → (run c (St.init b0) h).ps.objs[j]? = some b →
     (step c (run c (St.init b0) h) (.c (.eq i j))).2 = .bool (decide (SameIncarnation a b))
 
 def IsRunningIffListed_Full (c : Cfg) : Prop :=
-  ∀ (b0 : Nat), b0 ≠ 0 → ∀ (h : List Ev), HistOK h → ∀ (i : Nat) (o : PObj),
+  ∀ (b0 : Nat), BtOK c.createNoneTest b0 → ∀ (h : List Ev), HistOK c.createNoneTest h → ∀ (i : Nat) (o : PObj),
     (run c (St.init b0) h).ps.objs[i]? = some o →
     (step c (run c (St.init b0) h) (.c (.isRunning i))).2 = .bool (listedB (run c (St.init b0) h).kern o)
 
@@ -416,12 +417,12 @@ theorem C02_isRunning_unknown_start (s : St) (i : Nat) (o : PObj) (ho : s.ps.obj
 never 0" is asked. -/
 
 def EqIffSame_AnyReadability_Full (c : Cfg) : Prop :=
-  ∀ (b0 : Nat), b0 ≠ 0 → ∀ (h : List Ev), HistOKb h → ∀ (i j : Nat) (a b : PObj),
+  ∀ (b0 : Nat), BtOK c.createNoneTest b0 → ∀ (h : List Ev), HistOKb c.createNoneTest h → ∀ (i j : Nat) (a b : PObj),
     (run c (St.init b0) h).ps.objs[i]? = some a → (run c (St.init b0) h).ps.objs[j]? = some b →
     (step c (run c (St.init b0) h) (.c (.eq i j))).2 = .bool (decide (SameIncarnation a b))
 
 def IsRunningIffListed_AnyReadability_Full (c : Cfg) : Prop :=
-  ∀ (b0 : Nat), b0 ≠ 0 → ∀ (h : List Ev), HistOKb h → ∀ (i : Nat) (o : PObj),
+  ∀ (b0 : Nat), BtOK c.createNoneTest b0 → ∀ (h : List Ev), HistOKb c.createNoneTest h → ∀ (i : Nat) (o : PObj),
     (run c (St.init b0) h).ps.objs[i]? = some o →
     (step c (run c (St.init b0) h) (.c (.isRunning i))).2 = .bool (listedB (run c (St.init b0) h).kern o)
 
@@ -453,7 +454,7 @@ theorem C02_unknown_start_counterexample :
     decide
   have h1 : (run cfg (St.init 1000) witnessUnknownThenKnown).ps.objs[1]?
       = some ⟨8, some (0 + cfg.clk * 1000), some (0 + cfg.clk * 1000), false, false, 0⟩ := by decide
-  have hok : HistOKb witnessUnknownThenKnown := by decide
+  have hok : HistOKb cfg.createNoneTest witnessUnknownThenKnown := by decide
   refine ⟨?_, ?_, by decide, by decide, by decide, by decide⟩
   · intro H
     have := H 1000 (by decide) witnessUnknownThenKnown hok 0 1 _ _ h0 h1
